@@ -1,20 +1,20 @@
-(* Model of the per-event read loop of poller_epoll.go readWriteLoop (synchronous reading: LT, ET, ET+ONESHOT) and of the
-   ONESHOT branch of Conn.AsyncRead (the same loop run by a task), against a kernel receive buffer and the three epoll
-   disciplines, as the code is after commits d9301f7, 47bebc7, 15e9d4b, 55f84ef, 2333828:
+(* Model of the per-event read loop of poller_epoll.go readWriteLoop (synchronous reading: LT, ET, ET+ONESHOT; also LT with
+   AsyncReadInPoller, which reads synchronously) against a kernel receive buffer and the three epoll disciplines, as the
+   code is after commits d9301f7, 47bebc7, 15e9d4b, 55f84ef, 2333828 (asynchronous reading under ET, with or without
+   ONESHOT, is Gate.v since 270b003):
 
      on an event with IN:   for i := 0; i < Max; i++ { n := read(buf); if n > 0 deliver buf[:n];
                                                         EAGAIN -> break; n < len(buf) -> break }
                             (ET: Max is 2^31-1, modelled as "no limit"; EINTR retries are not modelled)
      event also has RDHUP:  read until n <= 0, delivering every read (readToEOF); close
-                            (in the ONESHOT branch of AsyncRead the poller stores readEOF before it starts the one task of
-                            the event, and the task does the same after its loop: `hup` below is that flag)
      else, ONESHOT:         ResetPollerEvent (EPOLL_CTL_MOD re-arms the descriptor)
 
    Epoll (assumption K3), read side of one descriptor:
      LT       an event is deliverable iff there is unread data or the peer has shut down
      ET       the descriptor is put on the ready list by every arrival (and by the shutdown) and taken off when reported
      ONESHOT  as ET while armed; reporting disarms; arrivals while disarmed are not queued; re-arming (MOD) queues the
-              descriptor iff it is readable at that moment
+              descriptor iff it is readable at that moment (the poller's ResetPollerEvent, and - action Mod - any
+              modWrite / resetRead caused by a Write, a flush or a dial completion)
    `rearms` = false is the poller that copied isOneshot before Engine.Start had set it (finding D28, fixed in 47bebc7).
    No proofs in this file. *)
 From Coq Require Import List Arith Bool.
@@ -51,6 +51,7 @@ Record st := mk {
 Inductive action :=
 | Arrive (a : A) (d : list A)
 | PeerEOF
+| Mod             (* ONESHOT: an EPOLL_CTL_MOD from the write side re-arms the descriptor *)
 | Wake            (* epoll_wait reports the descriptor; the loop starts *)
 | Read            (* one read(2) of the loop with its callback *)
 | DrainRead       (* one read(2) of readToEOF; n <= 0 ends it and the connection is closed *)
@@ -81,6 +82,12 @@ Definition step (c : cfg) (s : st) (a : action) : st :=
   | PeerEOF =>
       if eofsent s then s else
       mk (ph s) (avail s) (raise c s) (armed s) true (closed s) (sent s) (delivered s)
+  | Mod =>
+      match md c with
+      | OS => if closed s then s else
+              mk (ph s) (avail s) (edge s || nonempty (avail s) || eofsent s) true (eofsent s) (closed s) (sent s) (delivered s)
+      | _ => s
+      end
   | Wake =>
       match ph s with
       | Idle =>
@@ -122,6 +129,7 @@ Definition step (c : cfg) (s : st) (a : action) : st :=
 Definition enabled (c : cfg) (s : st) (a : action) : bool :=
   match a with
   | Arrive _ _ | PeerEOF => negb (eofsent s)
+  | Mod => match md c with OS => negb (closed s) | _ => false end
   | Wake => match ph s with Idle => deliverable c s | _ => false end
   | Read => match ph s with Loop _ _ => true | _ => false end
   | DrainRead => match ph s with Drain => true | _ => false end
@@ -139,6 +147,6 @@ End ReadLoop.
 
 Arguments mk {A}. Arguments ph {A}. Arguments avail {A}. Arguments edge {A}. Arguments armed {A}.
 Arguments eofsent {A}. Arguments closed {A}. Arguments sent {A}. Arguments delivered {A}.
-Arguments Arrive {A}. Arguments PeerEOF {A}. Arguments Wake {A}. Arguments Read {A}. Arguments DrainRead {A}. Arguments DoRearm {A}.
+Arguments Arrive {A}. Arguments PeerEOF {A}. Arguments Mod {A}. Arguments Wake {A}. Arguments Read {A}. Arguments DrainRead {A}. Arguments DoRearm {A}.
 Arguments nonempty {A}. Arguments raise {A}. Arguments deliverable {A}. Arguments step {A}. Arguments enabled {A}.
 Arguments init {A}. Arguments run {A}. Arguments quiescent {A}.
